@@ -24,6 +24,9 @@ class MachineryError(Exception):
     """Raised when the harness itself (not the property) fails: exit status 2."""
 
 
+_LOGGING_OFF = False
+
+
 def use_repo():
     """Make `import pdb2pqr` resolve to the tree under test (VERIF_REPO, default /repo)."""
     if sys.path[0] != REPO:
@@ -33,10 +36,13 @@ def use_repo():
     got = os.path.dirname(os.path.dirname(os.path.abspath(pdb2pqr.__file__)))
     if os.path.realpath(got) != os.path.realpath(REPO):
         raise MachineryError(f"pdb2pqr imported from {got}, expected {REPO}")
-    import logging
+    global _LOGGING_OFF
+    if not _LOGGING_OFF:
+        import logging
 
-    logging.getLogger().setLevel(logging.CRITICAL)
-    logging.disable(logging.CRITICAL)
+        logging.getLogger().setLevel(logging.CRITICAL)
+        logging.disable(logging.CRITICAL)
+        _LOGGING_OFF = True
     return pdb2pqr
 
 
